@@ -76,8 +76,13 @@ def render_obs(obs):
 
 def generate(res):
     src = C.read(os.path.join(C.REPO, "src", "canonicalize.rs"))
-    table = G.parse_source(src)
-    C.write_if_changed(os.path.join(C.GEN, "MathVariant.v"), G.render_mathvariant(table))
+    try:
+        table = G.parse_source(src)
+        C.write_if_changed(os.path.join(C.GEN, "MathVariant.v"), G.render_mathvariant(table))
+    except G.GenError as ex:
+        # the source no longer has the shape the translator reads: the tie is broken; the library is still
+        # observed on the reference domain so that the search can look for a concrete failing input
+        table = {"variants": [], "shifts": [], "exceptions": [], "digammas": [], "span": (0, 0), "translator_error": str(ex)}
     ucd_text, ref, styles, ref_domain = G.render_ucd()
     C.write_if_changed(os.path.join(C.GEN, "UcdMath.v"), ucd_text)
     ok, log = C.build_harness()
@@ -163,8 +168,8 @@ def end_to_end(res, ref, styles, table):
     a difference that breaks the property oracle is a violation."""
     sess = []
     pairs = []
-    variants = [v for v, _ in table["variants"]]
-    chars = [ord(c) for c, _, _ in table["shifts"]]
+    variants = [v for v, _ in table["variants"]] or list(styles)
+    chars = [ord(c) for c, _, _ in table["shifts"]] or sorted(set(b for (_, b) in ref))
     step = 1 if res.tier == "thorough" else 3
     k = 0
     for v in variants:
@@ -217,6 +222,15 @@ def run(res):
 
     def on_broken(log):
         return search(res, ref, styles, obs, table) > 0
+    if "translator_error" in table:
+        res.extra["translator_error"] = table["translator_error"]
+        res.obligation_names = C.pinned_theorems(os.path.join(C.COQ, "Props/C18.v"))
+        res.obligations = len(res.obligation_names)
+        if not on_broken(""):
+            res.violation("translator gen/c18.py can no longer read src/canonicalize.rs (%s): the theorems are not re-checked against the current source" % table["translator_error"],
+                          {"broken": "translator", "error": table["translator_error"]}, found_input=False)
+        end_to_end(res, ref, styles, table)
+        return
     proved = C.check_proofs(res, "C18", ["Props/C18.vo", "Tie/C18Tie.vo"], "Props/C18.v", search=on_broken)
     if proved:
         # proofs and tie hold: the oracle pass below is then only a consistency check of the search machinery
